@@ -1036,7 +1036,7 @@ def e6_none_safety(ctx) -> None:
                     t_ = _re.sub(r"Optional\[(.*)\]", r"\1 | None", t_)
                     return {x.strip() for x in t_.split("|")}
                 given, expected = parts(mt.group(1)), parts(mt.group(2))
-                none_related = (given - expected) == {"None"}
+                none_related = "None" in given and "None" not in expected
         if fn is not None and fn in scope and code == "attr-defined" and not none_related and "has no attribute" in msg:
             n += 1
             ctx.fail("E6", fn, None, f"the type checker finds an attribute access that the static type does not support ({msg}) at line {line} of consume-reachable code: for a value of "
